@@ -85,6 +85,8 @@ class LoopContext:
     break_jumps: List[int] = field(default_factory=list)
     continue_jumps: List[int] = field(default_factory=list)
     label: Optional[str] = None
+    # Further labels of the same statement (`a: b: for (...)`): all of them name it
+    more_labels: Tuple[str, ...] = ()
     is_loop: bool = True  # False for switch statements (break only, no continue)
     # Operands the construct keeps on the stack while its body runs
     # (for-in/for-of iterator, switch discriminant)
@@ -125,6 +127,7 @@ class Compiler:
         self._current_loc: Optional[Tuple[int, int]] = None  # Current source location
         self._hoisted: set = set()  # ids of function declarations bound on entry
         self._pending_label: Optional[str] = None  # label of the loop about to be compiled
+        self._pending_more_labels: Tuple[str, ...] = ()  # its further labels, outermost first
 
     def compile(self, node: Program) -> CompiledFunction:
         """Compile a program to bytecode."""
@@ -241,12 +244,24 @@ class Compiler:
         idx = self._add_name(name)
         self._emit(OpCode.STORE_NAME, idx)
 
+    @staticmethod
+    def _labeled_body(node: Node) -> Node:
+        """The statement under all the labels of a labeled statement."""
+        while isinstance(node, LabeledStatement):
+            node = node.body
+        return node
+
     def _new_loop_context(self, operands: int = 0) -> LoopContext:
         """Create the context of a loop, taking the label of an enclosing labeled statement."""
         label = self._pending_label
+        more_labels = self._pending_more_labels
         self._pending_label = None
+        self._pending_more_labels = ()
         return LoopContext(
-            label=label, operands=operands, try_depth=len(self.try_stack)
+            label=label,
+            more_labels=more_labels,
+            operands=operands,
+            try_depth=len(self.try_stack),
         )
 
     def _compile_finalizer_with_pending_exception(self, finalizer: Node) -> None:
@@ -719,7 +734,10 @@ class Compiler:
             for loop_ctx in reversed(self.loop_stack):
                 if target_label is not None:
                     # Labeled break - find the matching label
-                    if loop_ctx.label == target_label:
+                    if (
+                        loop_ctx.label == target_label
+                        or target_label in loop_ctx.more_labels
+                    ):
                         ctx = loop_ctx
                         break
                 else:
@@ -753,7 +771,11 @@ class Compiler:
                 # Skip non-loop contexts (like switch) unless specifically labeled
                 if not loop_ctx.is_loop and target_label is None:
                     continue
-                if target_label is None or loop_ctx.label == target_label:
+                if (
+                    target_label is None
+                    or loop_ctx.label == target_label
+                    or target_label in loop_ctx.more_labels
+                ):
                     ctx = loop_ctx
                     break
 
@@ -917,7 +939,7 @@ class Compiler:
             self._emit(OpCode.POP)
 
         elif isinstance(node, LabeledStatement) and isinstance(
-            node.body,
+            self._labeled_body(node),
             (
                 WhileStatement,
                 DoWhileStatement,
@@ -926,10 +948,16 @@ class Compiler:
                 ForOfStatement,
             ),
         ):
-            # A labeled loop: the loop's own context carries the label, so that
-            # `continue label` reaches its continue target and `break label` its exit
-            self._pending_label = node.label.name
-            self._compile_statement(node.body)
+            # A labeled loop: the loop's own context carries the label (all of them
+            # for `a: b: for (...)`), so that `continue label` reaches its continue
+            # target and `break label` its exit
+            labels = []
+            while isinstance(node, LabeledStatement):
+                labels.append(node.label.name)
+                node = node.body
+            self._pending_label = labels[-1]
+            self._pending_more_labels = tuple(labels[:-1])
+            self._compile_statement(node)
 
         elif isinstance(node, LabeledStatement):
             # Create a loop context for the label
